@@ -1,7 +1,7 @@
 package nutsdb
 
-// BS5 (bounded stand-in, NOT a proof): sets and lists through the transactional API against a mathematical-set
-// model and a slice model. Its role is the fall-back for changes that take the code out of the verified subset
+// BS5 (bounded stand-in, NOT a proof): sets, lists and key/value pairs of two buckets through the transactional API
+// against a mathematical-set model, a slice model and a map model, including transactions that mix the three. Its role is the fall-back for changes that take the code out of the verified subset
 // (a new helper with a loop and no contract leaves the proof of C05 / C06 undecided): then, and always in
 // addition to the proof obligations, the real database runs seeded histories of write transactions with clean
 // reopens and every read in a separate View is compared with the model.
@@ -45,7 +45,7 @@ func bs5SortedSet(m map[string]bool) []string {
 }
 
 // bs5Check compares every set and every list of the model with what a View transaction reads.
-func bs5Check(t *testing.T, db *DB, sets map[string]map[string]bool, lists map[string][]string, items []string, what string) bool {
+func bs5Check(t *testing.T, db *DB, sets map[string]map[string]bool, lists map[string][]string, kv map[string]map[string]string, items []string, what string) bool {
 	ok := true
 	fail := func(f string, a ...interface{}) {
 		if ok {
@@ -86,6 +86,36 @@ func bs5Check(t *testing.T, db *DB, sets map[string]map[string]bool, lists map[s
 				fail("SAreMembers(%s,%s,%s) = %v (err %v)", bk, want[0], want[len(want)-1], all, err)
 			}
 		}
+		for bucket, m := range kv {
+			var want []string
+			for k := range m {
+				want = append(want, k)
+			}
+			sort.Strings(want)
+			for _, k := range bs5KVKeys {
+				e, err := tx.Get(bucket, []byte(k))
+				v, has := m[k]
+				if has != (err == nil) || (has && string(e.Value) != v) {
+					fail("Get(%s,%s) err %v, model has=%v %q", bucket, k, err, has, v)
+				}
+			}
+			es, err := tx.GetAll(bucket)
+			if len(want) == 0 {
+				if err == nil && len(es) > 0 {
+					fail("GetAll(%s) returned %d entries, model none", bucket, len(es))
+				}
+				continue
+			}
+			if err != nil || len(es) != len(want) {
+				fail("GetAll(%s) returned %d entries (err %v), model %v", bucket, len(es), err, want)
+				continue
+			}
+			for i, e := range es {
+				if string(e.Key) != want[i] || string(e.Value) != m[want[i]] {
+					fail("GetAll(%s)[%d] = %s=%s, model %s=%s", bucket, i, e.Key, e.Value, want[i], m[want[i]])
+				}
+			}
+		}
 		for bk, l := range lists {
 			bucket, key := bk[:2], []byte(bk[3:])
 			got, err := tx.LRange(bucket, key, 0, -1)
@@ -118,6 +148,8 @@ func bs5Check(t *testing.T, db *DB, sets map[string]map[string]bool, lists map[s
 	return ok
 }
 
+var bs5KVKeys = []string{"k", "kk", "m"}
+
 func TestBS5SetList(t *testing.T) {
 	seeds, nops := 6, 40
 	if os.Getenv("VERIF_TIER") == "thorough" {
@@ -141,6 +173,7 @@ func TestBS5SetList(t *testing.T) {
 		db := bs5Open(t, dir, mode)
 		sets := map[string]map[string]bool{}
 		lists := map[string][]string{}
+		kv := map[string]map[string]string{"s1": {}, "s2": {}}
 		for _, n := range names {
 			sets[n] = map[string]bool{}
 			lists[n] = nil
@@ -151,7 +184,64 @@ func TestBS5SetList(t *testing.T) {
 			bucket, key := name[:2], []byte(name[3:])
 			var apply func() // model update, run when the transaction committed
 			var txerr error
-			switch kind := rnd.Intn(10); {
+			switch kind := rnd.Intn(12); {
+			case kind >= 10: // a mixed transaction over both buckets: key/value writes interleaved with set / list appends
+				kvNew := map[string]map[string]string{"s1": {}, "s2": {}}
+				for b, m := range kv {
+					for k, v := range m {
+						kvNew[b][k] = v
+					}
+				}
+				setAdds := map[string][]string{}
+				listAdds := map[string][]string{}
+				n := 2 + rnd.Intn(4)
+				txerr = db.Update(func(tx *Tx) error {
+					for i := 0; i < n; i++ {
+						b := []string{"s1", "s2"}[rnd.Intn(2)]
+						k := bs5KVKeys[rnd.Intn(len(bs5KVKeys))]
+						switch rnd.Intn(5) {
+						case 0, 1:
+							v := fmt.Sprintf("kv%d.%d", op, i)
+							what += fmt.Sprintf(" Put(%s,%s,%s)", b, k, v)
+							if err := tx.Put(b, []byte(k), []byte(v), Persistent); err != nil {
+								return err
+							}
+							kvNew[b][k] = v
+						case 2:
+							what += fmt.Sprintf(" Delete(%s,%s)", b, k)
+							if err := tx.Delete(b, []byte(k)); err != nil {
+								return err
+							}
+							delete(kvNew[b], k)
+						case 3:
+							it := items[rnd.Intn(3)]
+							what += fmt.Sprintf(" SAdd(%s/k,%q)", b, it)
+							if err := tx.SAdd(b, []byte("k"), []byte(it)); err != nil {
+								return err
+							}
+							setAdds[b+"/k"] = append(setAdds[b+"/k"], it)
+						default:
+							v := fmt.Sprintf("m%d.%d", op, i)
+							what += fmt.Sprintf(" RPush(%s/k,%q)", b, v)
+							if err := tx.RPush(b, []byte("k"), []byte(v)); err != nil {
+								return err
+							}
+							listAdds[b+"/k"] = append(listAdds[b+"/k"], v)
+						}
+					}
+					return nil
+				})
+				apply = func() {
+					kv = kvNew
+					for n, its := range setAdds {
+						for _, it := range its {
+							sets[n][it] = true
+						}
+					}
+					for n, vs := range listAdds {
+						lists[n] = append(append([]string{}, lists[n]...), vs...)
+					}
+				}
 			case kind < 4: // several SAdd / SRem on one set
 				// sets never get the empty member here: Set.SRem refuses it, so it can be added and popped but never
 				// removed (known finding of C06, set.Set.SRem#at1.return_[2]); lists do get empty values
@@ -333,7 +423,7 @@ func TestBS5SetList(t *testing.T) {
 				reopens++
 			}
 			checks++
-			if !bs5Check(t, db, sets, lists, items, what) {
+			if !bs5Check(t, db, sets, lists, kv, items, what) {
 				passed = false
 			}
 		}
